@@ -106,6 +106,12 @@ theorem kr_delayCore (s : SeqState) (d : Int) (n : ChName) (atRest : Bool) :
         · exact fun h => h
         · exact kr_withChan _ _ _
 
+theorem kr_delayChecked (s : SeqState) (d : Int) (n : ChName) (atRest : Bool) :
+    KeepsRefs s (delayChecked s d n atRest) := by
+  rcases delayChecked_cases s d n atRest with h | ⟨e, h⟩ <;> rw [h]
+  · exact kr_delayCore s d n atRest
+  · exact kr_fail s e
+
 theorem kr_alignLoop (tf : Int) (l : List (ChName × Int)) : ∀ s, KeepsRefs s (alignLoop tf l s) := by
   induction l with
   | nil => intro s; exact fun h => h
@@ -211,7 +217,7 @@ theorem stepRaw_refs (s : SeqState) (op : Op) : KeepsRefs s (stepRaw s op) := by
     apply kr_store; apply kr_markNonEmpty
     repeat' split
     all_goals first | exact kr_fail _ _ | exact kr_addCore _ _ _ _ _
-  | delay d n atRest => exact kr_store _ (kr_delayCore _ _ _ _)
+  | delay d n atRest => exact kr_store _ (kr_delayChecked _ _ _ _)
   | align chs atRest =>
     simp only [stepRaw]
     apply kr_store
